@@ -21,6 +21,22 @@ Proof. intros E. unfold find_id. now rewrite E. Qed.
 Lemma find_link_same_links s s' mb u : links s' = links s -> find_link s' mb u = find_link s mb u.
 Proof. intros E. unfold find_link. now rewrite E. Qed.
 
+Lemma find_link_in' s mb' u l : find_link s mb' u = Some l -> In l (links s).
+Proof. unfold find_link. intros H. apply find_some in H. tauto. Qed.
+
+Lemma ins_by_uid_in' x l ls : In x (ins_by_uid l ls) -> x = l \/ In x ls.
+Proof.
+  induction ls as [|a ls IH]; simpl; [intuition (subst; auto)|].
+  destruct (lk_uid l <=? lk_uid a); simpl; [intuition (subst; auto)|].
+  intros [->|H]; [right; left; reflexivity|]. destruct (IH H); tauto.
+Qed.
+
+Lemma sort_by_uid_in' x ls : In x (sort_by_uid ls) -> In x ls.
+Proof.
+  induction ls as [|a ls IH]; simpl; [tauto|]. intros H. apply ins_by_uid_in' in H.
+  destruct H as [->|H]; [now left | right; auto].
+Qed.
+
 Lemma uidcopy_loop_good uids : forall s sel dest next d,
   Inv (set_next s dest next) -> find_id s dest = Some d ->
   match uidcopy_loop s sel dest uids next with
@@ -30,8 +46,9 @@ Lemma uidcopy_loop_good uids : forall s sel dest next d,
 Proof.
   induction uids as [|u r IH]; simpl; intros s sel dest next d I Hf.
   - now apply Good_refl.
-  - destruct (find_link s sel u) as [l|]; [|now apply (IH s sel dest next d)].
-    destruct (insert_set_good s (lk_msg l) dest next (add_recent (lk_flags l)) d I Hf) as (s' & -> & G & Em & _).
+  - destruct (find_link s sel u) as [l|] eqn:Fl; [|now apply (IH s sel dest next d)].
+    assert (Hl : In l (links (set_next s dest next))) by (simpl; eapply find_link_in'; exact Fl).
+    destruct (insert_set_good s (lk_msg l) dest next (add_recent (lk_flags l)) d I Hf (inv_msg _ I l Hl)) as (s' & -> & G & Em & _).
     assert (Hf' : find_id s' dest = Some d) by (rewrite (find_id_same_mboxes s s' dest Em); exact Hf).
     pose proof (IH s' sel dest (next + 1) d (proj1 G) Hf') as K.
     destruct (uidcopy_loop s' sel dest r (next + 1)); [|exact Logic.I].
@@ -47,8 +64,11 @@ Lemma copy_loop_good seqs : forall s sel dest next d,
 Proof.
   induction seqs as [|n r IH]; simpl; intros s sel dest next d I Hf.
   - now apply Good_refl.
-  - destruct (nth_error (links_sorted s sel) (Z.to_nat (n - 1))) as [l|]; [|exact Logic.I].
-    destruct (insert_set_good s (lk_msg l) dest next (add_recent (lk_flags l)) d I Hf) as (s' & -> & G & Em & _).
+  - destruct (nth_error (links_sorted s sel) (Z.to_nat (n - 1))) as [l|] eqn:Fnth; [|exact Logic.I].
+    assert (Hl : In l (links (set_next s dest next))).
+    { simpl. apply nth_error_In in Fnth. unfold links_sorted in Fnth. apply sort_by_uid_in' in Fnth.
+      unfold links_in in Fnth. apply filter_In in Fnth. tauto. }
+    destruct (insert_set_good s (lk_msg l) dest next (add_recent (lk_flags l)) d I Hf (inv_msg _ I l Hl)) as (s' & -> & G & Em & _).
     assert (Hf' : find_id s' dest = Some d) by (rewrite (find_id_same_mboxes s s' dest Em); exact Hf).
     pose proof (IH s' sel dest (next + 1) d (proj1 G) Hf') as K.
     destruct (copy_loop s' sel dest r (next + 1)); [|exact Logic.I].
@@ -83,30 +103,32 @@ Qed.
 
 Lemma set_flags_core s mb u fl : CoreEq s (set_flags s mb u fl).
 Proof.
-  repeat split. simpl. rewrite map_map. apply map_ext.
-  intros l. destruct (at_uid mb u l); reflexivity.
+  repeat split; simpl; try lia.
+  - rewrite map_map. apply map_ext. intros l. destruct (at_uid mb u l); reflexivity.
+  - rewrite map_map. apply map_ext. intros l. destruct (at_uid mb u l); reflexivity.
 Qed.
 
-Lemma move_message_good s msg src su d fl : Inv s -> Good s (fst (move_message s msg src su d fl)).
+Lemma move_message_good s msg src su d fl : Inv s -> msg < next_msg s -> Good s (fst (move_message s msg src su d fl)).
 Proof.
-  intros I. unfold move_message. destruct (find_name s d) as [m|] eqn:Fn; [|now apply Good_refl].
+  intros I Hmsg. unfold move_message. destruct (find_name s d) as [m|] eqn:Fn; [|now apply Good_refl].
   destruct (mb_id m =? src); [now apply Good_refl|].
   apply find_name_some in Fn. destruct Fn as [Hm _]. pose proof (find_id_in s m I Hm) as Hf.
   pose proof (set_next_self s (mb_id m) m (inv_ids s I) Hf) as Es.
   assert (IT : Inv (set_next s (mb_id m) (mb_next m))) by (rewrite Es; exact I).
-  destruct (insert_set_good s msg (mb_id m) (mb_next m) fl m IT Hf) as (s' & -> & G & _).
+  destruct (insert_set_good s msg (mb_id m) (mb_next m) fl m IT Hf Hmsg) as (s' & -> & G & _).
   rewrite Es in G. simpl. eapply Good_trans; [exact G|]. apply Good_delete_links. apply G.
 Qed.
 
 Lemma uidstore_one_good s sel mode new u : Inv s -> Good s (uidstore_one s sel mode new u).
 Proof.
-  intros I. unfold uidstore_one. destruct (find_link s sel u) as [l|]; [|now apply Good_refl].
+  intros I. unfold uidstore_one. destruct (find_link s sel u) as [l|] eqn:Fl; [|now apply Good_refl].
+  assert (Hmsg : lk_msg l < next_msg s) by (apply (inv_msg s I); eapply find_link_in'; exact Fl).
   assert (SF : forall fl, Good s (set_flags s sel u fl)) by (intros; apply Good_core_eq; auto; apply set_flags_core).
   destruct (negb (fmem JUNK (lk_flags l)) && fmem JUNK (calc_flags (lk_flags l) new mode)).
-  - pose proof (move_message_good s (lk_msg l) sel u SPAM (fremove NONJUNK (calc_flags (lk_flags l) new mode)) I) as Q.
+  - pose proof (move_message_good s (lk_msg l) sel u SPAM (fremove NONJUNK (calc_flags (lk_flags l) new mode)) I Hmsg) as Q.
     destruct (move_message s (lk_msg l) sel u SPAM _) as [s1 ok]. destruct ok; [exact Q | apply SF].
   - destruct (negb (fmem NONJUNK (lk_flags l)) && fmem NONJUNK (calc_flags (lk_flags l) new mode)).
-    + pose proof (move_message_good s (lk_msg l) sel u INBOX (fremove JUNK (calc_flags (lk_flags l) new mode)) I) as Q.
+    + pose proof (move_message_good s (lk_msg l) sel u INBOX (fremove JUNK (calc_flags (lk_flags l) new mode)) I Hmsg) as Q.
       destruct (move_message s (lk_msg l) sel u INBOX _) as [s1 ok]. destruct ok; [exact Q | apply SF].
     + apply SF.
 Qed.
@@ -122,7 +144,7 @@ Qed.
 (** ---- one clean step ---------------------------------------------------------- *)
 
 Lemma store_message_core s : CoreEq s (fst (store_message s)).
-Proof. repeat split. Qed.
+Proof. repeat split. simpl. lia. Qed.
 
 Lemma good_after_core s s1 s2 : Inv s -> CoreEq s s1 -> Good s1 s2 -> Good s s2.
 Proof. intros I E G. eapply Good_trans; [apply Good_core_eq; eauto | exact G]. Qed.
@@ -134,9 +156,9 @@ Lemma deliver_tail_good s id m :
 Proof.
   intros I Hf. unfold store_message.
   set (s2 := mkStore (mboxes s) (links s) (next_msg s + 1) (glog s) (gused s) (gser s)).
-  assert (E : CoreEq s s2) by (repeat split).
+  assert (E : CoreEq s s2) by (repeat split; simpl; lia).
   assert (I2 : Inv s2) by (eapply Inv_core_eq; eauto).
-  destruct (add_message_good s2 (next_msg s) id [] m I2 Hf) as (s3 & -> & G & _).
+  destruct (add_message_good s2 (next_msg s) id [] m I2 Hf ltac:(simpl; lia)) as (s3 & -> & G & _).
   simpl. eapply good_after_core; eauto.
 Qed.
 
@@ -149,23 +171,20 @@ Proof.
     + apply find_name_some in Fn. destruct Fn as [Hm _].
       simpl. apply (deliver_tail_good s (mb_id m) m); auto. now apply find_id_in.
     + destruct (create_mailbox_row s f t) as [[s' id]|] eqn:Cr; [|apply Good_refl; auto].
-      assert (N : ~ In (f, t) (gused s)).
-      { apply used_b_false. destruct (used_b s f t); [|reflexivity].
-        destruct (let '(s2, msg) := store_message s' in _) in C. discriminate. }
-      destruct (create_row_good s f t s' id I Cr N) as (G & Em & _).
+      destruct (create_row_good s f t s' id I Cr) as (G & Em & _).
       eapply Good_trans; [exact G|]. destruct G as [I' _].
-      apply (deliver_tail_good s' id (mkMbox id f t 1)); auto.
-      replace id with (mb_id (mkMbox id f t 1)) at 1 by reflexivity.
+      apply (deliver_tail_good s' id (mkMbox id f (next_validity s t) 1)); auto.
+      replace id with (mb_id (mkMbox id f (next_validity s t) 1)) at 1 by reflexivity.
       apply find_id_in; auto. rewrite Em. apply in_or_app. right. now left.
   - (* append *)
     unfold op_append. destruct (find_name s f) as [m|] eqn:Fn; [|apply Good_refl; auto].
     apply find_name_some in Fn. destruct Fn as [Hm _].
     unfold store_message.
     set (s2 := mkStore (mboxes s) (links s) (next_msg s + 1) (glog s) (gused s) (gser s)).
-    assert (E : CoreEq s s2) by (repeat split).
+    assert (E : CoreEq s s2) by (repeat split; simpl; lia).
     assert (I2 : Inv s2) by (eapply Inv_core_eq; eauto).
     assert (Hf : find_id s2 (mb_id m) = Some m) by (apply find_id_in; auto).
-    destruct (add_message_good s2 (next_msg s) (mb_id m) fl m I2 Hf) as (s3 & -> & G & _).
+    destruct (add_message_good s2 (next_msg s) (mb_id m) fl m I2 Hf ltac:(simpl; lia)) as (s3 & -> & G & _).
     simpl. eapply good_after_core; eauto.
   - now apply op_uidcopy_good.
   - now apply op_copy_good.
@@ -177,11 +196,11 @@ Proof.
     destruct name as [|c r]; [apply Good_refl; auto|]. cbv iota beta in *.
     set (name := c :: r) in *.
     destruct (str_eqb (to_upper name) INBOX); [apply Good_refl; auto|].
+    destruct (is_role_ns name); [apply Good_refl; auto|].
     destruct (find_name s name); [apply Good_refl; auto|].
-    apply negb_true_iff in F. rewrite F in *.
+    apply negb_true_iff in F. unfold create_parents. rewrite F. change (fst (s, true)) with s.
     destruct (create_mailbox_row s name t) as [[s2 id]|] eqn:Cr; [|apply Good_refl; auto].
-    simpl in *. destruct (used_b s name t) eqn:U; [discriminate|].
-    destruct (create_row_good s name t s2 id I Cr (used_b_false _ _ _ U)) as (G & _). exact G.
+    simpl in *. destruct (create_row_good s name t s2 id I Cr) as (G & _). exact G.
   - (* delete *)
     clear C. unfold op_delete. destruct n as [|c r]; [apply Good_refl; auto|]. set (n := c :: r).
     destruct (str_eqb (to_upper n) INBOX); [apply Good_refl; auto|].
@@ -190,19 +209,22 @@ Proof.
     destruct (existsb _ _); [apply Good_refl; auto|].
     simpl. now apply delete_mbox_good.
   - (* rename *)
-    apply andb_true_iff in F. destruct F as [F Fc]. apply andb_true_iff in F. destruct F as [Fs Fl].
-    apply negb_true_iff in Fs. apply negb_true_iff in Fl.
+    apply andb_true_iff in F. destruct F as [F Fu]. apply andb_true_iff in F. destruct F as [F Fc].
+    apply andb_true_iff in F. destruct F as [Fs Fl].
+    apply negb_true_iff in Fs. apply negb_true_iff in Fl. clear C.
     unfold op_rename in *.
     destruct a as [|ca ra]; [apply Good_refl; auto|].
     destruct b as [|cb rb]; [apply Good_refl; auto|]. cbv iota beta in *.
     set (a := ca :: ra) in *. set (b := cb :: rb) in *.
+    destruct (is_role_ns b); [apply Good_refl; auto|].
     destruct (str_eqb (to_upper b) INBOX); [apply Good_refl; auto|].
-    unfold is_inbox in C.
+    unfold is_inbox in Fu.
     destruct (str_eqb (to_upper a) INBOX).
     + (* RENAME INBOX *)
       unfold rename_inbox in *.
       destruct (find_name s b) eqn:Fb; [apply Good_refl; auto|].
       destruct (find_name s INBOX) as [ib|] eqn:Fi; [|apply Good_refl; auto].
+      unfold create_parents. rewrite Fs. cbv iota beta. change (negb true) with false. cbv iota.
       destruct (create_mailbox_row s b t) as [[s1 nid]|] eqn:Cr; [|apply Good_refl; auto].
       destruct (create_row_shape s b t s1 nid Cr) as (_ & Enid & Es1).
       apply find_name_some in Fi. destruct Fi as [Hib _].
@@ -213,50 +235,19 @@ Proof.
       { pose proof (fresh_id_gt (map mb_id (mboxes s)) (mb_id ib) (in_map mb_id _ _ Hib)). lia. }
       assert (Hx : forall l, In l (links s) -> lk_mbox l = mb_id ib -> lk_uid l < mb_next ib).
       { intros l Hl E. now apply (Inv_uid_below s ib l I). }
-      destruct (used_b s b t) eqn:U.
-      * (* the rename cannot fail, so this is class CSameSecond *)
-        exfalso.
-        assert (Hex : exists s2, reparent (set_next s1 nid (mb_next ib)) (mb_id ib) nid = Some s2).
-        { unfold reparent. destruct (mb_id ib =? nid) eqn:E0; [eauto|].
-          match goal with |- context [existsb ?f ?l] => assert (X : existsb f l = false) end.
-          { apply not_true_is_false. intros X. apply existsb_exists in X. destruct X as (l & _ & X).
-            apply existsb_exists in X. destruct X as (l' & Hl' & X). unfold at_uid in X.
-            apply andb_true_iff in X. destruct X as [X _]. apply Z.eqb_eq in X.
-            rewrite Es1 in Hl'. simpl in Hl'. exact (Hnone l' Hl' X). }
-          rewrite X. eauto. }
-        destruct Hex as (s2 & R). rewrite R in C. simpl in C. discriminate.
-      * assert (N : ~ In (b, t) (gused s)) by (now apply used_b_false).
-        destruct (create_row_good s b t s1 nid I Cr N) as ([I1 _] & _).
-        destruct (reparent_good s s1 (mb_id ib) nid b t (mb_next ib) I I1) as (s2 & -> & G); auto;
-          rewrite Es1; reflexivity.
+      pose proof (next_validity_fresh s b t) as N.
+      destruct (create_row_good s b t s1 nid I Cr) as ([I1 _] & _).
+      destruct (reparent_good s s1 (mb_id ib) nid b (next_validity s t) (mb_next ib) I I1) as (s2 & -> & G); auto;
+        rewrite Es1; reflexivity.
     + (* plain RENAME *)
       destruct (find_name s a) as [m|] eqn:Fa; [|apply Good_refl; auto].
       destruct (find_name s b) eqn:Fb; [apply Good_refl; auto|].
-      rewrite Fs in *. simpl in *.
+      unfold create_parents. rewrite Fs. cbv iota beta. change (negb true) with false. cbv iota.
       apply find_name_some in Fa. destruct Fa as [Hm Ena].
       pose proof (find_id_in s m I Hm) as Hf.
-      destruct (used_b s b (mb_validity m)) eqn:U.
-      * (* class CSameSecond unless the rename fails; it cannot fail *)
-        exfalso. unfold rename_tx, rename_row in C. rewrite Hf in C.
-        assert (Hex : existsb (fun m' => str_eqb (mb_name m') b && negb (mb_id m' =? mb_id m)) (mboxes s) = false).
-        { apply not_true_is_false. intros X. apply existsb_exists in X. destruct X as (m' & Hm' & A).
-          apply andb_true_iff in A. destruct A as [A _]. apply str_eqb_eq in A.
-          exact (find_name_none s b m' Fb Hm' A). }
-        rewrite Hex in C. fold (ren (mb_id m) b) in C.
-        match type of C with context [children ?x a] => assert (Hc : children x a = []) end.
-        { unfold children. simpl. apply (proj2 (filter_nil _ _)).
-          intros m' Hm'. apply in_map_iff in Hm'. destruct Hm' as (m0 & <- & H0). unfold ren.
-          destruct (mb_id m0 =? mb_id m); simpl; [exact Fl|].
-          destruct (children s a) eqn:Ch; [|discriminate].
-          unfold children in Ch. exact (proj1 (filter_nil _ _) Ch m0 H0). }
-        rewrite Hc in C. simpl in C. discriminate.
-      * destruct (rename_row_good s (mb_id m) b m I Hf Fb (used_b_false _ _ _ U)) as (s' & R & G & Em & El).
-        unfold rename_tx. rewrite R.
-        assert (Hc : children s' a = []).
-        { unfold children. rewrite Em. apply (proj2 (filter_nil _ _)).
-          intros m' Hm'. apply in_map_iff in Hm'. destruct Hm' as (m0 & <- & H0). unfold ren.
-          destruct (mb_id m0 =? mb_id m); simpl; [exact Fl|].
-          destruct (children s a) eqn:Ch; [|discriminate].
-          unfold children in Ch. exact (proj1 (filter_nil _ _) Ch m0 H0). }
-        rewrite Hc. simpl. exact G.
+      apply negb_true_iff in Fu.
+      destruct (rename_row_good s (mb_id m) b m I Hf Fb (used_b_false _ _ _ Fu)) as (s' & R & G & Em & El).
+      unfold rename_tx. rewrite R.
+      destruct (children s a) eqn:Ch; [|discriminate].
+      simpl. exact G.
 Qed.
